@@ -71,7 +71,9 @@ Definition check_mono : bool :=
   tmpl_gen_kinds && nodupb ps_eqb MH && nodupb vx_eqb MH && forallb mono_entry_ok MH.
 
 (* ---- comparison with the Timings rex built (correspondence; negative window seqs = default entry) ---- *)
+(* the contents of a cell that does not run are never used by the runner for anything the properties speak about: only the run flag is compared there *)
 Definition cell_eqb (a b : cell) : bool :=
+  if negb (c_run a) && negb (c_run b) then true else
   Bool.eqb (c_run a) (c_run b) && (c_seq a =? c_seq b) && (c_start a =? c_start b) && (c_end a =? c_end b) &&
   Nat.eqb (length (c_wins a)) (length (c_wins b)) &&
   forallb (fun ww => wl_eqb (canon_w (fst ww)) (canon_w (snd ww))) (combine (c_wins a) (c_wins b)).
